@@ -1296,17 +1296,26 @@ func (f *formatter) ExprMethodCall(n *ast.ExprMethodCall) {
 	n.Var.Accept(f)
 	n.ObjectOperatorTkn = f.newToken(token.T_OBJECT_OPERATOR, []byte("->"))
 
+	braces := n.OpenCurlyBracketTkn != nil
 	n.OpenCurlyBracketTkn = nil
 	n.CloseCurlyBracketTkn = nil
 	switch n.Method.(type) {
 	case *ast.Identifier:
+		braces = false
 	case *ast.ExprVariable:
 	default:
+		braces = true
+	}
+
+	if braces {
 		n.OpenCurlyBracketTkn = f.newToken('{', []byte("{"))
-		n.CloseCurlyBracketTkn = f.newToken('}', []byte("}"))
 	}
 
 	n.Method.Accept(f)
+
+	if braces {
+		n.CloseCurlyBracketTkn = f.newToken('}', []byte("}"))
+	}
 
 	n.OpenParenthesisTkn = f.newToken('(', []byte("("))
 	n.SeparatorTkns = nil
@@ -1363,17 +1372,26 @@ func (f *formatter) ExprPropertyFetch(n *ast.ExprPropertyFetch) {
 	n.Var.Accept(f)
 	n.ObjectOperatorTkn = f.newToken(token.T_OBJECT_OPERATOR, []byte("->"))
 
+	braces := n.OpenCurlyBracketTkn != nil
 	n.OpenCurlyBracketTkn = nil
 	n.CloseCurlyBracketTkn = nil
 	switch n.Prop.(type) {
 	case *ast.Identifier:
+		braces = false
 	case *ast.ExprVariable:
 	default:
+		braces = true
+	}
+
+	if braces {
 		n.OpenCurlyBracketTkn = f.newToken('{', []byte("{"))
-		n.CloseCurlyBracketTkn = f.newToken('}', []byte("}"))
 	}
 
 	n.Prop.Accept(f)
+
+	if braces {
+		n.CloseCurlyBracketTkn = f.newToken('}', []byte("}"))
+	}
 }
 
 func (f *formatter) ExprRequire(n *ast.ExprRequire) {
@@ -1400,17 +1418,26 @@ func (f *formatter) ExprStaticCall(n *ast.ExprStaticCall) {
 	n.Class.Accept(f)
 	n.DoubleColonTkn = f.newToken(token.T_PAAMAYIM_NEKUDOTAYIM, []byte("::"))
 
+	braces := n.OpenCurlyBracketTkn != nil
 	n.OpenCurlyBracketTkn = nil
 	n.CloseCurlyBracketTkn = nil
 	switch n.Call.(type) {
 	case *ast.Identifier:
+		braces = false
 	case *ast.ExprVariable:
 	default:
+		braces = true
+	}
+
+	if braces {
 		n.OpenCurlyBracketTkn = f.newToken('{', []byte("{"))
-		n.CloseCurlyBracketTkn = f.newToken('}', []byte("}"))
 	}
 
 	n.Call.Accept(f)
+
+	if braces {
+		n.CloseCurlyBracketTkn = f.newToken('}', []byte("}"))
+	}
 
 	n.OpenParenthesisTkn = f.newToken('(', []byte("("))
 	n.SeparatorTkns = nil
@@ -1460,17 +1487,21 @@ func (f *formatter) ExprVariable(n *ast.ExprVariable) {
 	n.CloseCurlyBracketTkn = nil
 	switch n.Name.(type) {
 	case *ast.Identifier:
+		braces = false
 	case *ast.ExprVariable:
-		if braces {
-			n.OpenCurlyBracketTkn = f.newToken('{', []byte("{"))
-			n.CloseCurlyBracketTkn = f.newToken('}', []byte("}"))
-		}
 	default:
+		braces = true
+	}
+
+	if braces {
 		n.OpenCurlyBracketTkn = f.newToken('{', []byte("{"))
-		n.CloseCurlyBracketTkn = f.newToken('}', []byte("}"))
 	}
 
 	n.Name.Accept(f)
+
+	if braces {
+		n.CloseCurlyBracketTkn = f.newToken('}', []byte("}"))
+	}
 }
 
 func (f *formatter) ExprYield(n *ast.ExprYield) {
